@@ -972,8 +972,38 @@ class Canon:
                     return ast.fix_missing_locations(ast.copy_location(new, node))
                 return node
 
+            def visit_JoinedStr(self, node):
+                self.generic_visit(node)
+                # f'XML{"".join(parts)}' -> 'XML' + ''.join(parts): only when every interpolated expression is str-valued by construction
+                def str_valued(e):
+                    return isinstance(e, ast.Call) and isinstance(e.func, ast.Attribute) and e.func.attr in ('join', 'replace', 'strip', 'lower', 'upper', 'capitalize', 'title')
+                parts = []
+                for v in node.values:
+                    if isinstance(v, ast.Constant) and isinstance(v.value, str):
+                        parts.append(v)
+                    elif isinstance(v, ast.FormattedValue) and v.conversion == -1 and v.format_spec is None and str_valued(v.value):
+                        parts.append(v.value)
+                    else:
+                        return node
+                if len(parts) < 2 or not any(not isinstance(x, ast.Constant) for x in parts):
+                    return node
+                new = parts[0]
+                for x in parts[1:]:
+                    new = ast.BinOp(left=new, op=ast.Add(), right=x)
+                hit[0] = True
+                canon.counts['F'] = canon.counts.get('F', 0) + 1
+                return ast.fix_missing_locations(ast.copy_location(new, node))
+
             def visit_Call(self, node):
                 self.generic_visit(node)
+                # x.replace('_', '-') -> '-'.join(x.split('_')): the same string for a non-empty separator
+                if isinstance(node.func, ast.Attribute) and node.func.attr == 'replace' and len(node.args) == 2 and not node.keywords and \
+                        all(isinstance(a, ast.Constant) and isinstance(a.value, str) for a in node.args) and node.args[0].value != '':
+                    split = ast.Call(func=ast.Attribute(value=node.func.value, attr='split', ctx=ast.Load()), args=[node.args[0]], keywords=[])
+                    new = ast.Call(func=ast.Attribute(value=node.args[1], attr='join', ctx=ast.Load()), args=[split], keywords=[])
+                    hit[0] = True
+                    canon.counts['J'] = canon.counts.get('J', 0) + 1
+                    return ast.fix_missing_locations(ast.copy_location(new, node))
                 if isinstance(node.func, ast.Name) and node.func.id == 'isinstance' and len(node.args) == 2 and not node.keywords and isinstance(node.args[1], ast.Tuple) \
                         and 2 <= len(node.args[1].elts) <= 6 and _pure_chain(node.args[0]):
                     parts = [ast.Call(func=ast.Name(id='isinstance', ctx=ast.Load()), args=[copy.deepcopy(node.args[0]), c], keywords=[]) for c in node.args[1].elts]
